@@ -21,6 +21,8 @@ def make_cases(tier, seed, classes=None):
     if tier == "quick":
         cases.append(ST.make_case(ST.CLASSES[0], seed * 100 + 7))
         cases.append(ST.make_case(ST.CLASSES[0], seed * 100 + 8))
+    if classes is None or any(c.get("name") == "wave-zone" for c in classes) or True:
+        cases += ST.vacuum_cases(seed)      # exact vacuum solutions: run with vacuum=True and no stress-energy tensor
     return cases
 
 
@@ -35,8 +37,11 @@ def plan_jobs(cases, oracle, keys, tier, opts=None):
             combos += [(2, "interior"), (6, "interior"), (8, "interior"), (4, "corner")]
         if tier == "thorough" or ci == 1:
             combos += [(4, "face"), (4, "edge"), (2, "corner")]
+        o = dict(opts or {})
+        if c.get("vacuum"):
+            o.update({"vacuum": True, "_noT": True})
         for order, probe in combos:
-            jobs.append((ci, order, probe, (c, oracle[ci], order, probe, keys, opts or {})))
+            jobs.append((ci, order, probe, (c, oracle[ci], order, probe, keys, o)))
     return jobs
 
 
@@ -64,8 +69,11 @@ def run_geo(pid, tier, seed, keys, what_text, sig_extra=None, classes=None, opts
         for label, vopts, vkeys in hv:
             vo = dict(opts or {})
             vo.update(vopts)
-            for ci in sel:
-                jobs.append((ci, 4, "interior", (cases[ci - 1], oracle[ci], 4, "interior", vkeys, vo), label))
+            for ci in sel + [k for k in range(1, len(cases) + 1) if cases[k - 1].get("vacuum") and oracle.get(k) is not None]:
+                vo2 = dict(vo)
+                if cases[ci - 1].get("vacuum"):
+                    vo2.update({"vacuum": True, "_noT": True})
+                jobs.append((ci, 4, "interior", (cases[ci - 1], oracle[ci], 4, "interior", vkeys, vo2), label))
     outs = GR.pmap(GR.compare_keys, [j[3] for j in jobs])
     for (ci, order, probe, job, label), mm in zip(jobs, outs):
         c = cases[ci - 1]
